@@ -306,7 +306,7 @@ PROPS = {
     'C08': dict(
         cone=EV_CONE + ['theories/JsonProofs.v', 'theories/JsonRoundtrip.v', 'theories/JsonCross.v'], level='proof', kernel_maxlen=6000, oracle=_c08_oracle,
         nontrivial=lambda i, o: 'err' in o or ' e' in o, classify=lambda i, o: i.split(' ')[0] + ' ' + o.split(' ')[0][:3],
-        rule='every C01 claims-set (valid and each kind of invalid) through ValidateAndEncodeClaimsToCBOR vs EncodeClaimsToCBOR, Evidence.SetClaims (result and whether anything was attached), ValidateAndSign (result, no token on failure, payload = plain encoding); every C04 token through DecodeAndValidateClaimsFromCBOR vs DecodeClaimsFromCBOR and DecodeAndValidateEvidenceFromCOSE vs DecodeEvidenceFromCOSE; non-trivial = some gate refused',
+        rule='every C01 claims-set (valid and each kind of invalid) through ValidateAndEncodeClaimsToCBOR vs EncodeClaimsToCBOR, Evidence.SetClaims (result and whether anything was attached), ValidateAndSign (result, no token on failure, payload = plain encoding); every C04 token through DecodeAndValidateClaimsFromCBOR vs DecodeClaimsFromCBOR and DecodeAndValidateEvidenceFromCOSE vs DecodeEvidenceFromCOSE; every fifth C12 case through the JSON gates and the deprecated aliases; an extension profile with a rule of its own through every validating gate (XGATE); Evidence histories whose attached claims are changed in place between attach and sign; non-trivial = some gate refused',
     ),
     'C10': dict(
         cone=WIRE_CONE, level='proof', kernel_maxlen=6000,
